@@ -19,13 +19,14 @@ def register(PROPS):
         'rule': 'case = one pair of first two events; everything below it is explored exhaustively to the depth bound with a visited table per case; '
                 'states/transitions/traces are summed over cases (a state reached under two different first pairs is counted twice); non-trivial = '
                 'the subtree holds >= 2 distinct states',
-        'bound': {'quick': 'depth 5 at T0 = 2030-01-01 (drift run depth 4; a further run at T0 = 2028-03-01, a leap-year March, depth 4)', 'thorough': 'depth 7 (drift run depth 6, leap-March run depth 5)'},
+        'bound': {'quick': 'depth 5 at T0 = 2030-01-01 (drift run depth 4; a further run at T0 = 2028-03-01, a leap-year March, depth 4); narrow alphabet (one UID, the two- and three-occurrence schedules, ADD/replace, CANCEL, on-time TICK, EXIT) depth 12', 'thorough': 'depth 7 (drift run depth 6, leap-March run depth 5), narrow alphabet depth 20'},
         'counter_map': {'states': 'states', 'transitions': 'transitions', 'traces_validated_against_impl': 'traces'},
         'drivers': [
             D('e2_explore', ['prop=C04', 'depth=5', '--case-timeout', '60'], ['prop=C04', 'depth=7', '--case-timeout', '300'], label='depth'),
             D('e2_explore', ['prop=C04', 'depth=4', 'drift=1.5', '--case-timeout', '60'], ['prop=C04', 'depth=6', 'drift=1.5', '--case-timeout', '300'], label='drift'),
             D('e2_explore', ['prop=C04', 'depth=4', 't0=1835481600', '--case-timeout', '60'], ['prop=C04', 'depth=5', 't0=1835481600', '--case-timeout', '300'], label='leap-march'),
             D('e2_explore', ['prop=C04', 'depth=3', '--case-timeout', '60'], ['prop=C04', 'depth=4', '--case-timeout', '120'], label='asan', variant='asan'),
+            D('e2_explore', ['prop=C04', 'alpha=narrow', 'depth=12', '--case-timeout', '120'], ['prop=C04', 'alpha=narrow', 'depth=20', '--case-timeout', '600'], label='narrow-deep'),
         ],
         'assumptions': ['a task with nothing left to run (exhausted and fired, or loaded without a future occurrence) may be dropped by the daemon '
                         'at any time; it must be gone once its last job has exited / time has moved on',
@@ -41,12 +42,13 @@ def register(PROPS):
                  'starts are judged by its own limit only.  A linear sweep runs one fill / refuse / exit / run-again history for every N = 1..62.',
         'note': E2_NOTE + '  Real process lifetimes are replaced by explicit EXIT events; echsx\'s handling of the no-run flag is C13/C14 territory.',
         'rule': 'as C04: case = pair of first two events, subtree explored exhaustively; non-trivial = subtree holds >= 2 states',
-        'bound': {'quick': 'depth 6', 'thorough': 'depth 8'},
+        'bound': {'quick': 'depth 6; narrow alphabet (X with limit 2, Y with limit 1, ADD/replace, CANCEL, on-time TICK, EXIT of each job) depth 9', 'thorough': 'depth 8, narrow alphabet depth 11'},
         'counter_map': {'states': 'states', 'transitions': 'transitions', 'traces_validated_against_impl': 'traces'},
         'drivers': [
             D('e2_explore', ['prop=C12', 'depth=6', '--case-timeout', '60'], ['prop=C12', 'depth=8', '--case-timeout', '300'], label='depth'),
             D('e2_explore', ['prop=C12', 'mode=sweep', '--case-timeout', '60'], label='sweep-N-1..62'),
             D('e2_explore', ['prop=C12', 'depth=4', '--case-timeout', '60'], ['prop=C12', 'depth=5', '--case-timeout', '120'], label='asan', variant='asan'),
+            D('e2_explore', ['prop=C12', 'alpha=narrow', 'depth=9', '--case-timeout', '120'], ['prop=C12', 'alpha=narrow', 'depth=11', '--case-timeout', '600'], label='narrow-deep'),
         ],
         'assumptions': ['unset MAX-SIMUL means unlimited'],
     }
